@@ -450,6 +450,14 @@ func c14Case(c *vfCase) {
 	}
 	cfg := vfFRRParse(text)
 	k.cfg = cfg
+	for _, e := range cfg.Errors {
+		if strings.Contains(e, "used before remote-as") {
+			// a statement for a neighbor the router never declares: FRR refuses it ("% Specify remote-as or
+			// peer-group commands first"), whatever the rest of the text says the parameter is not on its neighbor
+			k.violation("text:statement-for-undeclared-neighbor", "the generated text carries a neighbor statement whose neighbor is never declared with remote-as: "+e, map[string]any{"excerpt": vfFRRExcerpt(text)})
+			return
+		}
+	}
 	if len(cfg.Unknown) > 0 || len(cfg.Errors) > 0 {
 		c.Inconclusive(fmt.Sprintf("interpreter cannot judge the text: unknown=%v errors=%v", cfg.Unknown, cfg.Errors))
 		c.Logf("text:\n%s", text)
